@@ -364,6 +364,62 @@ def pipeline(rep: Report, plan, deadline):
 
 
 # ----------------------------------------------------------------------------------------------
+# (c) multi-pair RENAME TABLE (mysql): pairs are executed from left to right
+# ----------------------------------------------------------------------------------------------
+def _multi_rename(task):
+    base, pairs, dialect = task
+    from sqllineage.runner import LineageRunner
+
+    hist = [tuple(ev) for ev in base]
+    stmts = [render(ev, "star", dialect) for ev in hist]
+    stmts.append("RENAME TABLE " + ", ".join(f"{x} TO {y}" for x, y in pairs))
+    script = ";\n".join(stmts)
+    ref = ref_of(hist, "star")
+    for x, y in pairs:
+        ref.step(("ren", x, y))
+    universe = ("a", "b", "c", "t", "s1", "s2")
+    try:
+        r = LineageRunner(script, dialect=dialect)
+        s = {bare(t) for t in r.source_tables}
+        t = {bare(t) for t in r.target_tables}
+        m = {bare(t) for t in r.intermediate_tables}
+        edges = {(bare(d["data"]["source"]), bare(d["data"]["target"])) for d in r.to_cytoscape() if "source" in d["data"]}
+    except Exception as ex:  # noqa
+        return [f"exception {type(ex).__name__}: {str(ex)[:120]}"], script
+    bad = compare(ref, (s, t, m, edges), universe)
+    for x, y in pairs:
+        later_targets = {p[1] for p in pairs[pairs.index((x, y)) + 1:]}
+        if x not in later_targets and x not in ref.taint and (x in s | t | m):
+            bad.append(f"{x}: still present after RENAME {x} TO {y}")
+    return bad, script
+
+
+def multi_rename(rep: Report, tier: str):
+    import itertools as it
+
+    bases = [
+        [("rw", ("s1",), "a"), ("rw", ("s2",), "b")],
+        [("rw", ("s1",), "a"), ("rw", ("a",), "b")],
+        [("rw", ("s1",), "a")],
+    ]
+    tabs = ("a", "b", "t") if tier == "quick" else ("a", "b", "c", "t")
+    pairs = [(x, y) for x in tabs for y in tabs if x != y]
+    seqs = [list(p) for p in it.product(pairs, repeat=2)]
+    seqs += [list(p) for p in it.product([(x, y) for x in ("a", "b", "t") for y in ("a", "b", "t") if x != y], repeat=3)]
+    seqs = [sq for sq in seqs if len(set(sq)) == len(sq)]  # the same pair twice is an error in every database (the source is gone)
+    tasks = [(b, sq, d) for b in bases for sq in seqs for d in (["mysql"] if tier == "quick" else ["mysql", "non-validating"])]
+    res = pmap(_multi_rename, tasks, chunk=32)
+    seen = set()
+    for t, (bad, script) in zip(tasks, res):
+        if bad:
+            sig = (bad[0].split(":")[0], len(t[1]))
+            if sig in seen:
+                continue
+            seen.add(sig)
+            rep.violation("multi-pair-rename-disagrees-with-sequential-reference", {"part": "c", "base": [list(e) for e in t[0]], "pairs": t[1], "dialect": t[2], "script": script}, bad[:4])
+    return {"scripts": len(tasks), "pair_sequences": len(seqs)}
+
+
 def run(tier: str, opts: dict) -> int:
     rep = Report("C03", tier, "model_checking")
     t0 = time.time()
@@ -390,13 +446,15 @@ def run(tier: str, opts: dict) -> int:
             [(T3, "star", "ansi", 3), (T2, "lit", "ansi", 4), (T2, "star", "mysql", 3), (T2, "star", "non-validating", 3), (T2, "lit", "tsql", 3)],
             t0 + budget,
         )
+    multi = multi_rename(rep, tier)
     states = sum(r["states"] for r in runs)
     transitions = sum(r["transitions"] for r in runs)
     rep.coverage.update(
         states=states,
         transitions=transitions,
-        traces_validated_against_impl=pipe["scripts"],
-        evaluations=transitions + pipe["scripts"],
+        traces_validated_against_impl=pipe["scripts"] + multi["scripts"],
+        evaluations=transitions + pipe["scripts"] + multi["scripts"],
+        multi_pair_rename=multi,
         distinct_nontrivial=states,
         samples=[s for r in runs for s in r["samples"]][:6] or ["(none)"],
         rule="alphabet: every (read-set, at most one write) over the table universe, DROP t, RENAME x TO y (40 letters on 3 "
@@ -417,9 +475,18 @@ def run(tier: str, opts: dict) -> int:
 
 def replay(body: dict, opts: dict) -> int:
     c = body["case"]
-    tables = tuple(c["tables"])
-    hist = [tuple(tuple(x) if isinstance(x, list) else x for x in ev) for ev in c["history"]]
+    tables = tuple(c.get("tables", ()))
+    hist = [tuple(tuple(x) if isinstance(x, list) else x for x in ev) for ev in c.get("history", [])]
     ref = ref_of(hist, c.get("style"))
+    if c["part"] == "c":
+        bad, script = _multi_rename((c["base"], [tuple(p) for p in c["pairs"]], c["dialect"]))
+        print("script:", script)
+        print("discrepancies:", bad)
+        if bad:
+            print(f"VIOLATION property=C03 replay={opts.get('path', '<replayed>')}")
+            return 1
+        print("OK on replay")
+        return 0
     if c["part"] == "a":
         s, t, m, e, _ = impl_obs(tables, c["style"], hist)
         bad = compare(ref, (s, t, m, e), tables, hist[-1])
